@@ -14,6 +14,8 @@ import (
 func init() { register("C05", checkC05) }
 
 func checkC05(p *load.Program, r *kit.Report) {
+	r.Rule("TRIGGER-RESTARTS", "TriggerBlockSynchronize leaves the work to the registered round only behind IsComplete() == false of its thread", 1)
+	checkTriggerRestarts(p, r, "TRIGGER-RESTARTS")
 	importRules(p, r, "C16", "a request that is abandoned while a node is delivering the block, a download counted complete without having processed the requested block, or a registry that loses running downloads, leaves best-chain blocks unprocessed", 3, nil, "GIVE-UP")
 	importRules(p, r, "C04", "the processed marker (AppendBlockTxIDs) is what the walk back stops at: it must be written last, only for a fully processed block", 2, nil, "ORDER")
 	importRules(p, r, "C09", "synchronizeBlocks checks the pending block with headers.Hash(height): a refused tip height ends the round with the request still in flight (the block is then requested and processed twice)", 6, nil, "TIP-BOUND")
@@ -170,7 +172,8 @@ func checkC05(p *load.Program, r *kit.Report) {
 			bad = "the processed-block marker is not consulted while walking back"
 		} else {
 			ex := kit.FindGuards(f, func(c ssa.Value) (bool, bool) {
-				e, ok := c.(*ssa.Extract)
+				// (through the result temporary of an expanded wrapper around the lookup)
+				e, ok := kit.Strip(c).(*ssa.Extract)
 				return ok && e.Tuple == ssa.Value(fetch) && e.Index == 1, false
 			})
 			if ok, _ := kit.DominatedByEdges(f, prepend, edgesOf(ex, true), nil, p.Pos); !ok || len(ex) == 0 {
@@ -197,7 +200,7 @@ func checkC05(p *load.Program, r *kit.Report) {
 					return
 				}
 				for _, g := range kit.FindGuards(f, func(v ssa.Value) (bool, bool) {
-					e, ok := v.(*ssa.Extract)
+					e, ok := kit.Strip(v).(*ssa.Extract)
 					return ok && e.Tuple == ssa.Value(c) && e.Index == 1, true
 				}) {
 					closed = append(closed, g.PassEdge())
